@@ -1,6 +1,30 @@
 (** [step_preserves U (Confirm t h bhash btime)]: the model's [apply_confirm]
     re-establishes the refinement invariant for [spec_confirm].
-    Owner: prover-confirm. *)
+    Owner: prover-confirm.
+
+    Structure of the argument.  No facts satisfy the full [Inv] while
+    [remove_double_spends] runs inside [insert_mined] (the transaction is
+    already confirmed while its unconfirmed double spends are still present,
+    and its credits are not recorded yet).  The proof therefore separates the
+    store into the three unmined buckets and the rest ([graft], section B):
+    [remove_conflict], [remove_double_spends], [delete_unmined_tx] read and
+    write only the unmined buckets; [update_mined_balance], [add_credit (Some _)]
+    and [unlock_raw] never write them.  Hence
+
+      apply_confirm s = graft (rds (delete_unmined_tx? s))
+                              (unlock_all (add_credits (umb (txrec (blk s)))))
+
+    ([apply_confirm_eq]).  The left component is a store for which the full
+    [Inv] holds w.r.t. the OLD confirmed map and the unconfirmed set minus
+    the transaction, so [remove_conflict_correct] applies call by call
+    ([rds_correct], section D, which also shows that removing the double
+    spends one after another equals [remove_unconf_with_descendants] of the
+    conflicting set).  The right component is characterised bucket by bucket
+    (sections F, G) and shown to satisfy the mined half [InvM] of the
+    invariant for the NEW confirmed map ([mined_InvM]).  [Inv] is the
+    conjunction of [facts_wf], [InvM] (a function of [f_conf]), [InvU] (a
+    function of [f_unconf]) and the lease clause (section C); the pieces are
+    joined in [confirm_first]. *)
 From stdpp Require Import gmap list numbers sorting.
 From Coq Require Import ZArith NArith.
 From Verif Require Import Tx.Store Tx.Ledger Tx.Hist Tx.Inv Tx.InvRemove.
@@ -306,8 +330,8 @@ Section split.
   Lemma Inv_join s F :
     facts_wf U F → InvM s (f_conf F) → InvU s (f_unconf F) → locked s = f_leases F → Inv U s F.
   Proof.
-    intros Hwf HM HU HL. destruct HM, HU. constructor; try assumption.
-    intros op u [Hu Hop]. eapply iu_inputs_complete0; eassumption.
+    intros Hwf HM [HU1 HU2 HU3 HU4] HL. destruct HM. constructor; try assumption.
+    intros op u [Hu Hop]. exact (HU4 op u Hu Hop).
   Qed.
 
   (** InvM / InvU only look at their own buckets *)
@@ -1613,6 +1637,42 @@ Proof.
   simpl in *. rewrite H4, H5, H6, H1, H2, H3. auto.
 Qed.
 
+Lemma umb_in_locked h bh bhash acc ii : locked (umb_in h bh bhash acc ii).1 = locked acc.1.
+Proof.
+  destruct acc as [s nb], ii as [i op]. unfold umb_in.
+  destruct (cred_key_of_unspent s op); reflexivity.
+Qed.
+
+Lemma umb_mc_locked h bh bhash acc kv : locked (umb_mc h bh bhash acc kv).1 = locked acc.1.
+Proof. destruct acc as [s nb], kv as [op [a c]]. reflexivity. Qed.
+
+Lemma umb_locked t bh bhash s : locked (update_mined_balance t (bh, bhash) s) = locked s.
+Proof.
+  rewrite umb_eq.
+  pose proof (foldl_proj' (umb_in (t_id t) bh bhash) (λ acc, locked acc.1) (zip (indices (t_ins t)) (t_ins t))
+                (umb_in_locked _ _ _) (s, bal s)) as H1.
+  destruct (foldl (umb_in (t_id t) bh bhash) (s, bal s) (zip (indices (t_ins t)) (t_ins t))) as [s5 nb1].
+  simpl in H1.
+  set (mcs := filter (λ kv : N * N * (Z * bool), kv.1.1 = t_id t) (map_to_list (unmined_credits s5))).
+  pose proof (foldl_proj' (umb_mc (t_id t) bh bhash) (λ acc, locked acc.1) mcs
+                (umb_mc_locked _ _ _) (s5, nb1)) as H2.
+  destruct (foldl (umb_mc (t_id t) bh bhash) (s5, nb1) mcs) as [s6 nb2].
+  simpl in *. rewrite H2, H1. reflexivity.
+Qed.
+
+Lemma add_credit_locked t b i chg s : locked (add_credit t (Some b) i chg s) = locked s.
+Proof.
+  unfold add_credit. destruct b as [bh bhash].
+  destruct (bool_decide (is_Some (credits s !! (t_id t, bh, bhash, i)))); reflexivity.
+Qed.
+
+Lemma mined_part_locked t tid bh bhash btime s : locked (mined_part t tid bh bhash btime s) = locked s.
+Proof.
+  unfold mined_part, add_credits.
+  rewrite (foldl_proj' _ locked) by (intros; apply add_credit_locked).
+  rewrite umb_locked. unfold blk_upd. destruct (blocks s !! bh); reflexivity.
+Qed.
+
 Lemma unlock_all_set_locked ops : ∀ s,
   unlock_all s ops = set_locked (fun m => foldl (fun m op => delete op m) m ops) s.
 Proof.
@@ -1768,8 +1828,47 @@ Section confirm.
       + right. intros op Hop. destruct (unmined_credits s !! op) as [[a chg]|] eqn:Hmc; [|reflexivity].
         apply (iu_credits U s _ HU op a chg) in Hmc. destruct Hmc as (Hin & _). rewrite Hop in Hin. contradiction.
     - apply InvU_graft. destruct (Inv_split U sU' (wu F C') HI') as (_ & _ & HU' & _). exact HU'.
-    - rewrite locked_unlock_all.
-      destruct (mined_summary U t tid h bhash HUt Hid Hnd_ins Hins_ne btime s) as (_ & _ & _ & _ & _ & _ & Hlk).
-      all: try (rewrite Hins; rewrite Hlk; rewrite HL; reflexivity).
-  Abort.
+    - rewrite locked_unlock_all, mined_part_locked, HL, Hins. reflexivity.
+  Qed.
+
+  (** re-delivery of a confirmation that is already recorded *)
+  Lemma confirm_redelivery (tid : N) (t : tx) (h : Z) (bhash : N) (btime : Z) (s : store) (F : facts) b :
+    wf_universe U = true → Inv U s F →
+    U !! tid = Some t → f_conf F !! tid = Some b →
+    event_ok U F (Confirm tid h bhash btime) = true →
+    apply_confirm U t (h, bhash) btime s = Some s ∧ spec_confirm U F tid (h, bhash) = F.
+  Proof.
+    intros HwfU HI HUt Hconf Hok.
+    destruct (wf_tx_unpack tid t (wf_universe_tx U tid t HwfU HUt)) as (Hid & _).
+    simpl in Hok. rewrite HUt, Hconf in Hok.
+    rewrite !andb_true_iff in Hok. destruct Hok as [_ Hb]. apply bool_decide_eq_true in Hb. subst b.
+    split.
+    - unfold apply_confirm, insert_mined. rewrite Hid.
+      rewrite bool_decide_eq_true_2; [reflexivity|].
+      apply (inv_txrecs U s F HI). exact Hconf.
+    - unfold spec_confirm. rewrite Hconf. reflexivity.
+  Qed.
+
+  Lemma step_preserves_confirm_hyp t h bhash btime : step_preserves U (Confirm t h bhash btime).
+  Proof.
+    intros m sm HwfU HI Hclk Hok.
+    destruct (U !! t) as [x|] eqn:HUt.
+    - destruct (f_conf (fs sm) !! t) as [b|] eqn:Hconf.
+      + destruct (confirm_redelivery t x h bhash btime (st m) (fs sm) b HwfU HI HUt Hconf Hok) as [Hap Hsp].
+        cbn [step]. rewrite HUt, Hap. cbn [spec_step fs sclock st clock]. rewrite Hsp.
+        split; [discriminate|]. split; [exact HI|exact Hclk].
+      + destruct (confirm_first t x h bhash btime (st m) (fs sm) HwfU HI HUt Hconf Hok) as (s' & Hap & HI').
+        cbn [step]. rewrite HUt, Hap. cbn [spec_step fs sclock st clock].
+        split; [discriminate|]. split; [exact HI'|exact Hclk].
+    - exfalso. simpl in Hok. rewrite HUt in Hok. discriminate.
+  Qed.
 End confirm.
+
+(** * The exported statement (no hypotheses): the two interface facts come
+      from [Tx/InvRemove.v]. *)
+Lemma step_preserves_confirm U t h bhash btime : step_preserves U (Confirm t h bhash btime).
+Proof.
+  apply step_preserves_confirm_hyp; [apply descendants_ok|apply remove_conflict_ok].
+Qed.
+
+Print Assumptions step_preserves_confirm.
